@@ -97,7 +97,7 @@ type tsEngine struct {
 	loc  tsLoc
 	sums map[*ssa.Function]*tsSummary
 	// ptrWriter[g][i]: g stores through its i-th pointer parameter a value derived from what it points to
-	ptrWriter map[*ssa.Function]map[int]bool
+	ptrWriter                map[*ssa.Function]map[int]bool
 	useSet, escSet, freshSet map[ssa.Instruction]bool
 }
 
